@@ -449,7 +449,11 @@ package io
 //@   use decwf
 //@   modifies ghost.rpos[ival(dec.reader)], ghost.rfailed[ival(dec.reader)]
 
-//@ funcs \(\*Decoder\)\.(read2Digit|read3Digit|read4Digit|readNsec|readTime|ReadTime|readDateTime|ReadDateTime|ReadStringAsBytes|readUnsafeString|readSafeString|ReadUnsafeString|ReadSafeString|ReadString|readUnsafeBytes|readBytes|ReadBytes|ReadUUID|ReadFloat32|ReadFloat64|AddReference) : template decleaf
+//@ funcs \(\*Decoder\)\.(read2Digit|read3Digit|read4Digit|readNsec|readTime|ReadTime|readDateTime|ReadDateTime|ReadStringAsBytes|readUnsafeString|readSafeString|ReadUnsafeString|ReadSafeString|ReadString|readUnsafeBytes|readBytes|ReadBytes|ReadUUID|ReadFloat32|ReadFloat64) : template decleaf
+
+//@ func (*Decoder).AddReference
+//@   use decleaf
+//@   ensures [one_item_in_reference_mode] len(dec.refer.ref) == old(len(dec.refer.ref)) + ite(dec.simple, 0, 1) && dec.simple == old(dec.simple)
 
 //@ func (*Decoder).readStringAsSafeBytes
 //@   use decleaf
@@ -470,9 +474,11 @@ package io
 //@ template decany
 //@   havoc
 //@   use decwf
+//@   stable dec.simple, dec.reader
 //@   modifies ghost.rpos[ival(dec.reader)], ghost.rfailed[ival(dec.reader)]
+//@   ensures [reference_table_only_grows] len(dec.refer.ref) >= old(len(dec.refer.ref)) && dec.simple == old(dec.simple)
 
-//@ funcs \(\*Decoder\)\.(decode[A-Z][A-Za-z0-9]*|decode|Decode|defaultDecode|decodeError|decodeStringError|ReadObject|readObject|readObjectAsMap|fastDecode|fastDecodePtr) : template decany
+//@ funcs \(\*Decoder\)\.(decode[A-Z][A-Za-z0-9]*|decode|Decode|Read|defaultDecode|decodeError|decodeStringError|ReadObject|readObject|readObjectAsMap|fastDecode|fastDecodePtr) : template decany
 
 // (assumed) builds the field table of a class from the type registry; touches no decoder
 //@ func makeStructInfo
